@@ -99,7 +99,7 @@ VALID = dict(
     lights='<{p}light id="{id}"><{p}technique_common><{p}point><{p}color>1 0.5 0.25</{p}color></{p}point></{p}technique_common></{p}light>',
     cameras=('<{p}camera id="{id}"><{p}optics><{p}technique_common><{p}perspective><{p}xfov>45</{p}xfov><{p}znear>1</{p}znear>'
              '<{p}zfar>10</{p}zfar></{p}perspective></{p}technique_common></{p}optics></{p}camera>'),
-    nodes='<{p}node id="{id}"><{p}translate>1 2 3</{p}translate></{p}node>',
+    nodes='<{p}node id="{id}"><{p}translate>1 2 3</{p}translate><{p}lookat>1 2 3 0 0 0 0 1 0</{p}lookat></{p}node>',
     # every document uses the same id for the root it instantiates: ids are per document (and per visual scene)
     scenes=('<{p}visual_scene id="{id}"><{p}node id="root"><{p}translate>{perm}</{p}translate></{p}node>'
             '<{p}node id="{id}-n"><{p}instance_node url="#root"/></{p}node></{p}visual_scene>'),
@@ -154,6 +154,9 @@ def render(spec):
                     '<{p}lines count="3" material="m"><{p}input semantic="VERTEX" source="#{id}-v" offset="0"/><{p}p>0 1 2 2 1 0</{p}p></{p}lines>')]
             if sum(id_.encode()) % 2:
                 two.reverse()
+            if sum(id_.encode()) % 3 == 0:
+                # a triangle without area comes first (its normal is 0/0: NaN, quietly)
+                two.insert(0, '<{p}triangles count="1"><{p}input semantic="VERTEX" source="#{id}-v" offset="0"/><{p}p>0 0 1</{p}p></{p}triangles>'.format(p=pf, id=id_))
             # a primitive without items (blank <p>), of a kind that depends on the id: what a blank index list parses to is per primitive
             h = sum(id_.encode()) % 4
             if h:
@@ -334,10 +337,16 @@ def make_object(doc, lib, id_):
         il.addInput(0, 'VERTEX', '#' + id_ + '-p')
         g.primitives.append(g.createTriangleSet(numpy.array([0, 1, 2]), il, 'm'))
         return g
-    if lib == 'nodes':
-        return scene.Node(id_, transforms=[scene.TranslateTransform(1.0, 2.0, 3.0)])
-    if lib == 'scenes':
-        return scene.Scene(id_, [scene.Node(id_ + '-n')])
+    if lib in ('nodes', 'scenes'):
+        # made the way callers usually make them: without the optional list arguments, the lists filled afterwards
+        n = scene.Node(id_ if lib == 'nodes' else id_ + '-n')
+        n.transforms.append(scene.TranslateTransform(1.0, 2.0, 3.0))
+        if len(doc.geometries):
+            inst = scene.GeometryNode(doc.geometries[0])
+            if len(doc.materials):
+                inst.materials.append(scene.MaterialNode('m', doc.materials[0], []))
+            n.children.append(inst)
+        return n if lib == 'nodes' else scene.Scene(id_, [n])
     if lib == 'images':
         return material.CImage(id_, './%s.png' % id_, doc)
     if lib == 'animations':
@@ -403,7 +412,10 @@ def do_op(slot, op):
             L.remove(L[op[2]])
             return 'ok', None
         if k == 'query':
-            return 'ok', query(d).encode()
+            import warnings
+            with warnings.catch_warnings():
+                warnings.simplefilter('ignore')       # (a triangle without area: NaN normal and a RuntimeWarning, both expected)
+                return 'ok', query(d).encode()
         if k == 'save':
             buf = io.BytesIO()
             d.write(buf)
@@ -660,6 +672,10 @@ def module_state():
                     d = memo[id(v)] = _desc(v)
                 st['%s.%s' % (name, k)] = d
     st['xml.etree.ElementTree._namespace_map'] = _desc(ET._namespace_map)
+    # process-wide (thread-wide) switches of the libraries underneath
+    import numpy
+    st['numpy.geterr()'] = repr(sorted(numpy.geterr().items()))
+    st['numpy.get_printoptions()'] = repr(sorted((k, repr(v)) for k, v in numpy.get_printoptions().items()))
     st['xml.etree.ElementTree.register_namespace'] = _desc(ET.register_namespace)
     return st
 
